@@ -288,6 +288,23 @@ P("C10",
   assumptions=["only the setters named by the property's mechanism are required to refuse"])
 
 
+P("C17",
+  rc={"quick": (12, 5000, 100, 8), "thorough": (14, 80000, 100, 8)},
+  budget={"quick": 150, "thorough": 1500},
+  rule="net lists on 1..15 cells built directly on NetModel: 1..20 nets of degree 2..5 (a third of the cases 2-pin only), "
+       "fixed and movable pins, offsets in quarter units, weights 1 / quarter multiples / real in [0.25,8], every cell anchored "
+       "with probability 0.85, coordinates and targets in [0,100] (targets also outside), penalty strengths [50,500], cutoff "
+       "[100,300], approximation distance [1,20], tolerance 1e-6, all four net models. Oracles: bitwise equality of "
+       "solveStar/solve/solveWithPenalty under a common factor 2^k (k in -6..6) on weights and strengths; deviation <= 1e-3 of "
+       "the range under factors 2.5 and 7; agreement with a dense double-precision solve of the documented quadratic model "
+       "(initial star model; 2-pin nets under all models with and without penalty) within 10*(tol*|b|/lambda_min + "
+       "kappa*eps*|x*|), instances whose bound exceeds 1% of the range counted as ill-conditioned and skipped; 1 case in 6 "
+       "runs Circuit::placeGlobal twice with all net weights scaled by 2^k and compares the first lower bound. non-trivial = "
+       "weights not all equal, one non-integral, and a net of degree >= 3 (or the 2-pin dense comparison ran); distinct = hash "
+       "of the net list.",
+  assumptions=["Eigen dense LDLT / eigenvalues in double as the reference", "no float under/overflow: factors 2^-6..2^6 on values in [1e-3,1e4]"])
+
+
 # ----------------------------------------------------------------------------
 def sh(cmd, **kw):
     return subprocess.run(cmd, stdout=subprocess.PIPE, stderr=subprocess.STDOUT, text=True, **kw)
